@@ -10,3 +10,27 @@ int bad_sort_null(void *base, size_t n, size_t size, cmpfun compar, void *contex
 static void bad2_sift(char *a, char *b, cmpfun cmp, void *ctx) { if (cmp(a, b, ctx) > 0) { char t = *a; *a = *b; *b = t; } }
 int bad_sort_swapped(void *base, size_t n, size_t size, cmpfun compar, void *context) {
     char *p = base; for (size_t i = 1; i < n; i++) bad2_sift(p + (i - 1) * size, p + i * size, compar, base); return 0; }
+/* bsearch bounds in the element-index domain */
+#include <stddef.h>
+void *fx16_bsearch_good(const void *key, const void *base, size_t nmemb, size_t size, int (*compar)(const void *, const void *, void *), void *context) {
+    while (nmemb > 0) {
+        void *p = (char *)base + size * (nmemb / 2);
+        int sign = compar(key, p, context);
+        if (!sign) return p;
+        else if (nmemb == 1) break;
+        else if (sign < 0) nmemb /= 2;
+        else { base = p; nmemb -= nmemb / 2; }
+    }
+    return NULL;
+}
+void *fx16_bsearch_overrun(const void *key, const void *base, size_t nmemb, size_t size, int (*compar)(const void *, const void *, void *), void *context) {
+    while (nmemb > 0) {
+        void *p = (char *)base + size * (nmemb / 2);
+        int sign = compar(key, p, context);
+        if (!sign) return p;
+        else if (nmemb == 1) break;
+        else if (sign < 0) nmemb /= 2;
+        else { base = (char *)p + size; nmemb -= nmemb / 2; }        /* steps behind the midpoint but keeps its count: runs past the end */
+    }
+    return NULL;
+}
